@@ -25,7 +25,14 @@ import (
 	"verifharness/internal/rt"
 )
 
-const verifRoot = "/verif"
+// verifRoot is /verif; background sweeps started with `vp run` set VERIF_ROOT to their snapshot so
+// that they neither overwrite the evidence nor share build output with the working copy.
+var verifRoot = func() string {
+	if v := os.Getenv("VERIF_ROOT"); v != "" {
+		return v
+	}
+	return "/verif"
+}()
 
 // repoRoot is the tree under test: /repo, or a scratch copy (development aid for
 // trying seeded changes without touching /repo; evidence is not written then).
